@@ -1,5 +1,7 @@
 import LcmProofs.Laws
 import LcmProofs.FiniteHorizon
+import LcmProofs.AffineInstance
+import LcmProps.Examples
 namespace Lcm
 
 /-! # C11 — the solution obeys the algebraic laws of finite-horizon dynamic programming
@@ -118,5 +120,42 @@ example : bellmanStep [0, 1] (fun _ => true) (fun x => 2 * (if x = 0 then 1 else
       (fun x => 2 * (if x = 0 then 2 else 0) + 1 * 3) (1/2)
     = Ext.affine 2 (1 * (1 + (1/2) * 3)) (bellmanStep [0, 1] (fun _ => true) (fun x => if x = 0 then (1 : Rat) else 3)
         (fun x => if x = 0 then (2 : Rat) else 0) (1/2)) := by decide +kernel
+
+
+/-! ## The affine law for the executable `solve` itself
+
+`C11_affine_solve`: take any specification `m`, replace the body `u` of its utility function by `a·u + b` (`a > 0`) and
+solve both with the same parameters. Then, `j` periods before the end, **every entry** `v` of the value array becomes
+`a·v + b·(1 + β + … + β^j)` (`-inf` stays `-inf`) and the shapes agree - for every layout (filter-restricted or not),
+any number of periods, continuation values read by exact lookup / multilinear interpolation and extrapolation, and
+expectations over stochastic states. Hypotheses: every row of every transition array sums to one (`RowsSumToOne`), no
+function takes the *value* of utility as an argument, and no filter / constraint / transition is named `utility`.
+The proof (LcmProofs/AffineSolve.lean) follows the definition of `solve` operation by operation; the abstract
+`C11_affine` above states the same law for any finite-horizon programme. -/
+
+theorem C11_affine_solve (m : Model) (P : Params) (a b : Rat) (ha : 0 < a)
+    (hno : ∀ f ∈ m.functions, "utility" ∉ f.args)
+    (hnames : ∀ fi ∈ functionInfo m, (fi.isConstraint = true ∨ fi.isFilter = true ∨ fi.isNext = true) → fi.name ≠ "utility")
+    (hR : RowsSumToOne P) (j : Nat) (hj : j < m.nPeriods) :
+    ((solve (withAffineUtility m a b) P true).getD (m.nPeriods - 1 - j) default).shape
+        = ((solve m P true).getD (m.nPeriods - 1 - j) default).shape ∧
+    ∀ idx, ((solve (withAffineUtility m a b) P true).getD (m.nPeriods - 1 - j) default).get idx
+        = Ext.affine a (b * geo P.beta (j + 1)) (((solve m P true).getD (m.nPeriods - 1 - j) default).get idx) :=
+  solve_affine (affineUtility_with m a b P hno hnames) ha hR j hj
+
+/-- the relational form: any two specifications that differ in utility only, by `u' = a·u + b` -/
+theorem C11_affine_solve_rel {m m' : Model} {P : Params} {a b : Rat} (h : AffineUtility m m' P a b) (ha : 0 < a)
+    (hR : RowsSumToOne P) (j : Nat) (hj : j < m.nPeriods) (idx : List Nat) :
+    ((solve m' P true).getD (m.nPeriods - 1 - j) default).get idx
+      = Ext.affine a (b * geo P.beta (j + 1)) (((solve m P true).getD (m.nPeriods - 1 - j) default).get idx) :=
+  (solve_affine h ha hR j hj).2 idx
+
+-- non-vacuity: the hypotheses hold for the consumption example, and the law is visible in the numbers
+-- (a = 2, b = 3, beta = 1/2, three periods: constants 3·(1 + 1/2 + 1/4), 3·(1 + 1/2), 3)
+#guard Ex.consModel.functions.all fun f => !f.args.contains "utility"
+#guard (functionInfo Ex.consModel).all fun fi => !(fi.isConstraint || fi.isFilter || fi.isNext) || fi.name != "utility"
+example : RowsSumToOne Ex.consParams := by intro xa hxa; simp [Ex.consParams] at hxa
+#guard ((solve (withAffineUtility Ex.consModel 2 3) Ex.consParams).map (·.toFlat))
+  == ((solve Ex.consModel Ex.consParams).zipIdx.map fun (V, t) => V.toFlat.map (Ext.affine 2 (3 * geo (1/2) (3 - t))))
 
 end Lcm
